@@ -483,7 +483,7 @@ fn check_est(out: &mut Out, c: &EstCase) -> Option<(Value, Option<Vec<f64>>)> {
 // ------------------------------------------------------------------------------------------
 // data families
 // ------------------------------------------------------------------------------------------
-const FAMILIES: [&str; 9] = ["cont", "lattice", "dyadic", "identical", "collinear", "dups", "binary", "clusters", "scales"];
+const FAMILIES: [&str; 10] = ["cont", "lattice", "dyadic", "identical", "collinear", "dups", "binary", "clusters", "scales", "scaleulp"];
 
 fn gen_point(rng: &mut Rng, fam: &str, dim: usize) -> Vec<f64> {
     (0..dim)
@@ -548,6 +548,31 @@ fn gen_data(rng: &mut Rng, fam: &str, n: usize, dim: usize) -> Vec<Vec<f64>> {
                     (0..dim).map(|_| s * rng.int(-3, 3) as f64).collect()
                 })
                 .collect()
+        }
+        "scaleulp" => {
+            // distances from data[0] within 2 ulp of a power of the cover tree's base 1.3 (scales -60..25):
+            // the rounded logarithm of get_scale sits on the wrong side of the integer there (the defect
+            // repaired in e7f605b: the farthest point was dropped from the tree).  data[0] is the origin,
+            // the other points lie on the axes / the diagonal at the critical distance and fractions of it.
+            let k = rng.int(-60, 25);
+            let r = 1.3f64.powf(k as f64);
+            let ulps = rng.int(-2, 2);
+            let d = f64::from_bits((r.to_bits() as i64 + ulps) as u64);
+            let mut pts: Vec<Vec<f64>> = vec![vec![0.0; dim]];
+            for i in 1..n {
+                let f = *rng.pick(&[1.0, 1.0, 0.5, 0.75, 0.25, -1.0, -0.5]);
+                let f = if i == n - 1 { 1.0 } else { f };
+                let mut p = vec![0.0; dim];
+                if dim > 1 && rng.chance(0.2) {
+                    for x in p.iter_mut() {
+                        *x = f * d * 0.5;
+                    }
+                } else {
+                    p[rng.below(dim)] = f * d;
+                }
+                pts.push(p);
+            }
+            pts
         }
         _ => (0..n).map(|_| gen_point(rng, fam, dim)).collect(),
     }
@@ -623,6 +648,53 @@ fn tree_nodes(v: &Value) -> usize {
 }
 fn tree_depth(v: &Value) -> usize {
     1 + v["children"].as_array().map(|a| a.iter().map(tree_depth).max().unwrap_or(0)).unwrap_or(0)
+}
+
+
+// ------------------------------------------------------------------------------------------
+// construction: CoverTree::new through the model of build_cover_tree / batch_insert
+// ------------------------------------------------------------------------------------------
+/// The scale functions of the construction are parameters of the model (ln / powf are not reproduced
+/// in Coq): `get_cover_radius(s)` is tabulated through the cfg hook, `get_scale(d)` through the hook
+/// as the EXPECTED value, and the rounded logarithm `ceil(inv_log_base * ln d)` (the one sub-expression
+/// of get_scale that the model takes as a parameter) is re-stated here with the tree's own dumped
+/// `inv_log_base`.  A mis-statement can only make the correspondence fail (the model's scale or tree
+/// would differ from the implementation's), not pass.
+struct ScaleTabs {
+    lo: i64,
+    rtab: Vec<f64>,
+    raw: Vec<(f64, i64)>,
+    exp: Vec<(f64, i64)>,
+}
+fn scale_tables(m: &Met, data: &[Vec<f64>], b: &Built, tv: &Value) -> Option<ScaleTabs> {
+    let inv_log_base = tv["inv_log_base"].as_f64()?;
+    let mut ds: Vec<f64> = vec![];
+    for x in data {
+        for y in data {
+            let d = m.distance(x, y);
+            if !d.is_finite() {
+                return None;
+            }
+            if d > 0.0 {
+                ds.push(d);
+            }
+        }
+    }
+    ds.sort_by(|x, y| x.partial_cmp(y).unwrap());
+    ds.dedup();
+    let raw: Vec<(f64, i64)> = ds.iter().map(|d| (*d, (inv_log_base * d.ln()).ceil() as i64)).collect();
+    let exp: Vec<(f64, i64)> = ds.iter().map(|d| (*d, b.cover.verif_get_scale(*d))).collect();
+    let all = || raw.iter().chain(exp.iter()).map(|e| e.1);
+    let lo = all().min().unwrap_or(0) - 8;
+    let hi = all().max().unwrap_or(0) + 2;
+    if hi - lo > 400 {
+        return None; // extreme dynamic range: table too long for a literal
+    }
+    let rtab: Vec<f64> = (lo..=hi).map(|s| b.cover.verif_get_cover_radius(s)).collect();
+    Some(ScaleTabs { lo, rtab, raw, exp })
+}
+fn coq_scale_tab(t: &[(f64, i64)]) -> String {
+    coq_list(t.iter().map(|(d, s)| format!("({}, {})", coq_f64(*d), coq_z(*s))))
 }
 
 // ------------------------------------------------------------------------------------------
@@ -704,6 +776,19 @@ fn corr_dataset(out: &mut Out, rng: &mut Rng, m: &Met, data: &[Vec<f64>], fam: &
     let mut inp = base.clone();
     inp["entry"] = json!("wf");
     out.corr("cover_tree_wf", format!("corr_wf {} {} {}", coq_metric(m, data, None, true), cdata, jt), inp);
+    // construction: the model of CoverTree::new must build the very tree the implementation dumped
+    match scale_tables(m, data, &b, &tv) {
+        Some(st) => {
+            let tabs = format!("{} {} {}", coq_z(st.lo), coq_list_f64(&st.rtab), coq_scale_tab(&st.raw));
+            let mut inp = base.clone();
+            inp["entry"] = json!("build");
+            out.corr("cover_tree_build", format!("corr_build {} {} {} {}", coq_metric(m, data, None, true), cdata, tabs, jt), inp.clone());
+            // get_scale: the model's value on every pairwise distance = the implementation's, and the
+            // hypothesis of build_wf that the returned scale's cover radius reaches the distance
+            out.corr("cover_tree_scale", format!("corr_scale {} {}", tabs, coq_scale_tab(&st.exp)), inp);
+        }
+        None => out.count("corr-build-skipped:scale-range"),
+    }
     let mut ms_c = vec![];
     let mut ms_l = vec![];
     let mut fq_c = vec![];
@@ -995,7 +1080,7 @@ fn replay(path: &str) -> i32 {
     let data = rows_from_json(&inp["data"]);
     let cover = inp["algo"].as_str() != Some("linear");
     match inp["entry"].as_str().unwrap_or("") {
-        "find" | "radius" | "wf" | "corr_queries" => {
+        "find" | "radius" | "wf" | "build" | "corr_queries" => {
             match build(&m, &data) {
                 Err(e) => out.fail("construction", &e, inp.clone()),
                 Ok(b) => {
@@ -1067,6 +1152,10 @@ fn main() {
         (vec![vec![0.0, 0.0]; 2], "corpus-identical"),
         (vec![vec![1.0], vec![1.0], vec![2.0]], "corpus-dups"),
         ((1..=9).map(|i| vec![i as f64]).collect(), "corpus-test-suite"),
+        // repaired in e7f605b: the farthest point is 1 ulp beyond 1.3^-3 resp. 1.3^21 from data[0]; get_scale's
+        // rounded logarithm gave a scale whose cover radius fell short of it and the point was dropped
+        (vec![vec![0.0], vec![0.2275830678197542], vec![0.4551661356395084]], "corpus-scale-ulp"),
+        (vec![vec![0.0, 0.0], vec![123.5322645367253, 0.0], vec![0.0, 247.0645290734506]], "corpus-scale-ulp"),
     ];
     for (data, fam) in &corpus {
         for m in [Met::E, Met::M] {
